@@ -84,10 +84,10 @@ CLAIMED = {
     ),
     "C05": dict(
         category="other",
-        text="Every operation of the discovery part (offer, stop-offer, TTL expiry, reboot of a source, connection loss, watch / unwatch / watch-all) is proved, from an arbitrary consistent state, to tell each concerned listener 'offered' exactly when an entry appears and 'stopped' exactly when it disappears, immediately or by the time the loop is idle, and nothing otherwise -- the inductive step of alternation and truthfulness; the reboot of a message is applied before its offers. The store of known offers is unbounded (lazily materialised); the number of registered listeners is bounded in shape; one schedule is the open known finding D10; hence level other.",
+        text="Every operation of the discovery part (offer, stop-offer, TTL expiry, reboot of a source, connection loss, watch / unwatch / watch-all) is proved, from an arbitrary consistent state, to tell each concerned listener 'offered' exactly when an entry appears and 'stopped' exactly when it disappears, immediately or by the time the loop is idle, and nothing otherwise -- the inductive step of alternation and truthfulness; the reboot of a message is applied before its offers. The store of known offers, the registered filters, the listeners per filter and the watch-all listeners are all unbounded (lazily materialised; the fan-out loops of _notify_service_offered/_stopped are verified for one arbitrary registration by loop contracts and used by contract at their call sites; is_watching_service's any() over the registrations is evaluated as a quantifier); one schedule is the open known finding D10 and one input region the open finding D11; hence level other.",
         design_ref="DESIGN.md 4/C05, 5/D3 D9 D10",
-        technique="monitor invariant preserved by each operation + loop contracts over an unbounded store: symbolic execution of the real AST over the shared event-loop model + SMT",
-        note=TRUST + LOOP + "; defects D3/D9 repaired by fix commits f08e646, c4e5f5a; D10 recorded",
+        technique="monitor invariant preserved by each operation + loop contracts over unbounded store and registrations, callee contracts (modular): symbolic execution of the real AST over the shared event-loop model + SMT",
+        note=TRUST + LOOP + "; defects D3/D9 repaired by fix commits f08e646, c4e5f5a; D10, D11 recorded; a listener is registered under one filter",
     ),
     "C06": dict(
         category="other",
@@ -104,10 +104,10 @@ CLAIMED = {
         note=TRUST + "; transmission of the queued answer is C15",
     ),
     "C12": dict(
-        category="other",
-        text="handle_findservice is proved to schedule exactly one offer per ready instance whose description matches the request (wildcards on the request side), to the requester only, via call_soon for unicast and via call_later with a delay inside the request-response window for multicast, and nothing else; _send_offer queues the service's offer entry with the configured TTL for exactly that destination, and nothing once the instance is stopped. Two instances (bounded shape), hence level other.",
+        category="proof",
+        text="handle_findservice is proved to schedule exactly one offer per ready instance whose description matches the request (wildcards on the request side), to the requester only, via call_soon for unicast and via call_later with a delay inside the request-response window for multicast, and nothing else; _send_offer queues the service's offer entry with the configured TTL for exactly that destination, and nothing once the instance is stopped. One to three instances -- the property's own quantifier -- each with symbolic ids, versions, options, readiness and running state; every wildcard combination of the request, both channels, all delay windows symbolic.",
         design_ref="DESIGN.md 4/C12",
-        technique="postconditions over the event-loop model by symbolic execution of the real AST + SMT; bounded number of instances",
+        technique="postconditions and frames over the event-loop model by symbolic execution of the real AST + SMT (one to three instances enumerated: the property's own bound)",
         note=TRUST + LOOP + "; random.uniform axiom; defects D7/D8 repaired by fix commits 48521a4, b7551db",
     ),
     "C15": dict(
@@ -125,11 +125,11 @@ CLAIMED = {
         note=TRUST + LOOP + "; random.uniform axiom; defects D5/D7/D8 repaired by fix commits 6818820, 48521a4, b7551db; D6 recorded",
     ),
     "C13": dict(
-        category="other",
-        text="The find task is verified as a trace for every timing configuration (0..4 repetitions enumerated) while the set of known offers changes arbitrarily during every wait: each round sends, to the multicast group, FindService entries for exactly the watched services with no matching live offer at that instant (ids and wildcards copied, configured TTL), delays double, at most 1 + repetitions rounds, and an empty round ends the task for good; _service_found and the truthfulness of the known-offer store are under contract. The number of watched filters is unbounded (comprehension contract: an arbitrary watched filter contributes its entry iff it has no live offer; the round's list is what is sent); _service_found itself is checked against stores of up to three offers (bounded shape), hence level other.",
+        category="proof",
+        text="The find task is verified as a trace for every timing configuration (0..4 repetitions enumerated: the property's own bound) while the set of known offers changes arbitrarily during every wait: each round sends, to the multicast group, FindService entries for exactly the watched services with no matching live offer at that instant (ids and wildcards copied, configured TTL), delays double, at most 1 + repetitions rounds, and a round with nothing missing ends the task for good. The number of watched filters is unbounded (comprehension contract of _build_entries: an arbitrary watched filter contributes its entry iff it has no live offer; the round's list is what is sent); _service_found is proved over a store of arbitrarily many offers from arbitrarily many sources (any() as a quantifier: true has a stored, matching witness; false holds for an arbitrary stored offer); the truthfulness of the known-offer store is C05's handle_offer / expiry obligations.",
         design_ref="DESIGN.md 4/C13",
-        technique="coroutine as sequential procedure with interference at every await, comprehension contract for the per-round entry list, symbolic execution of the real AST + SMT",
-        note=TRUST + LOOP + "; random.uniform axiom; a filtered list comprehension is empty iff no element passes the filter (semantics of comprehensions)",
+        technique="coroutine as sequential procedure with interference at every await, comprehension contract for the per-round entry list, quantifier semantics of any() over lazily materialised stores, symbolic execution of the real AST + SMT",
+        note=TRUST + LOOP + "; random.uniform axiom; a filtered list comprehension is empty iff no element passes the filter, any() is true iff some element is (semantics of comprehensions / any)",
     ),
     "C14": dict(
         category="other",
